@@ -48,6 +48,7 @@ type rcaseT struct {
 	Chain    []opT
 	Call     []attrT
 	Buffered bool `json:",omitempty"`
+	Source   bool `json:",omitempty"` // logging.WithSource(true): the handlers add the call site
 	Entry    int  // 0 slog.Logger.Info, 1 LogAttrs, 2 Logger.Warn (no chain), 3 BatchLogger (no chain), 4 first op via Logger.With/WithGroup
 	Level    int  // 0 info 1 warn 2 error
 }
@@ -128,6 +129,9 @@ func runRedact(c rcaseT) (out []byte, panicked bool) {
 		}
 	}()
 	opts := []logging.Option{logging.WithHandlerType(logging.HandlerType(c.H)), logging.WithOutput(&buf)}
+	if c.Source {
+		opts = append(opts, logging.WithSource(true))
+	}
 	if c.Svc != nil {
 		opts = append(opts, logging.WithServiceName(c.Svc.S))
 	}
@@ -215,8 +219,9 @@ func runRedact(c rcaseT) (out []byte, panicked bool) {
 
 // ---- parsing the output back ----
 
-var builtin = map[string]bool{"time": true, "level": true, "msg": true,
-	"app_time": true, "app_level": true, "app_msg": true, "x-time": true, "x-level": true, "x-msg": true}
+var builtin = map[string]bool{"time": true, "level": true, "msg": true, "source": true,
+	"app_time": true, "app_level": true, "app_msg": true, "app_source": true,
+	"x-time": true, "x-level": true, "x-msg": true, "x-source": true}
 
 func parseJSONLine(line []byte) ([]pairT, error) {
 	dec := json.NewDecoder(bytes.NewReader(line))
@@ -246,6 +251,14 @@ func parseJSONLine(line []byte) ([]pairT, error) {
 			case json.Delim:
 				if v != '{' {
 					return fmt.Errorf("unexpected %v", v)
+				}
+				if top && builtin[k] { // the call site: {"function":…,"file":…,"line":…}
+					n := len(out)
+					if err := obj(p, false); err != nil {
+						return err
+					}
+					out = out[:n]
+					continue
 				}
 				if err := obj(p, false); err != nil {
 					return err
@@ -329,6 +342,9 @@ func parseConsoleLine(line string) ([]pairT, error) {
 		return nil, fmt.Errorf("no message marker")
 	}
 	s := line[i+len(msgMark):]
+	if j := strings.LastIndex(s, " \x1b[37m("); j >= 0 && strings.HasSuffix(s, ")\x1b[0m") {
+		s = s[:j] // the call site, appended after the attributes
+	}
 	if s == "" {
 		return nil, nil
 	}
@@ -544,6 +560,9 @@ func emitRedact(id string, c rcaseT, st *hx.Stats) string {
 		if c.Buffered {
 			st.Count("redact_buffered")
 		}
+		if c.Source {
+			st.Count("redact_with_source")
+		}
 		if c.User != "" {
 			st.Count("redact_user_replacer")
 		}
@@ -591,6 +610,9 @@ func (g *rgen) leaf() attrT {
 		a.S = a.Core
 		if g.h != "console" && r.Chance(1, 4) {
 			a.S += hx.Pick(r, []string{" sp", "=eq", "\"q", "é", "\\b", " "})
+		} else if r.Chance(1, 8) {
+			// a value that merely looks sensitive (redaction is by key): must come out unchanged under a plain key
+			a.S += hx.Pick(r, []string{":password", "-token", ":***REDACTED***", ".secret", ":Bearer"})
 		}
 	}
 	a.Via = r.Intn(2)
@@ -716,6 +738,7 @@ func genRedact(r *hx.Rand, allowLV bool) rcaseT {
 		return &attrT{K: k, S: core, Core: core}
 	}
 	c.Svc, c.Ver, c.Env = meta("service"), meta("version"), meta("env")
+	c.Source = r.Chance(1, 6)
 	nops := 0
 	if r.Chance(2, 3) {
 		nops = r.Range(1, 4)
